@@ -366,6 +366,23 @@ def state_wrapper(ctx, name, path, seed, nsteps, via_make=False):
                                   f'{label}: after set_observation_representation({new}) through the wrapper, {hname} advertises a stale '
                                   f'observation space', 'gym_case', payload)
                     return
+        if t % 25 == 20:
+            # the state representation is switched too (through the wrapper's handle or on the adapter): what the wrapper
+            # advertises as its observation space is the space of the states it returns from now on
+            new = rng.choice(repgen.NAMES)
+            handle = wrapper if t % 50 == 20 else genv
+            ok, res = call_real(handle.set_state_representation, new)
+            if not ok:
+                ctx.violation('adapter', 'state_wrapper.switch_raises', f'{label}: set_state_representation({new}) raised '
+                              f'{describe_exc(res)}', 'gym_case', payload)
+                return
+            srep = make_state_representation(new, twin.state_space)
+            ctx.hit('state_wrapper.state_switches')
+            if not spaces_equal(wrapper.observation_space, gv_gym.outer_space_to_gym_space(srep.space)):
+                ctx.violation('adapter', 'state_wrapper.switch_state_space_not_updated',
+                              f'{label}: after set_state_representation({new}) {"through the wrapper" if handle is wrapper else "on the adapter"} '
+                              f'the wrapper still advertises the space of the previous state representation', 'gym_case', payload)
+                return
         i = rng.randrange(genv.action_space.n)
         ok, res = call_real(wrapper.step, i)
         ctx.ev()
